@@ -333,6 +333,15 @@ Section Facts.
         * unfold rmtemp. cbn. subst sa. cbn. lia.
         * unfold rmtemp. cbn. subst sa. cbn. lia.
         * exact (f_equal s_live Ra).
+      + (* pack cannot be spawned *)
+        inversion H; subst s' o; clear H. split; [discriminate|]. exists [].
+        constructor; cbn -[rmtemp].
+        * unfold rmtemp. cbn. subst sa. cbn. rewrite <- !app_assoc. reflexivity.
+        * apply NoRm_nil.
+        * unfold rmtemp. cbn. subst sa. cbn. apply SegOk_nil.
+        * unfold rmtemp. cbn. subst sa. cbn. lia.
+        * unfold rmtemp. cbn. subst sa. cbn. lia.
+        * exact (f_equal s_live Ra).
     - (* no preprocessor *)
       destruct (mktemp s) as [sb tb] eqn:Emb.
       assert (Hsb : sb = mkSt (s_n s) (s_tr s) (s_next s) (S (s_tnext s)) (tb :: s_live s) /\ tb = s_tnext s)
